@@ -35,7 +35,9 @@ inductive Coll where
   | base (c : Better) | batch (c : Batch) | dynamic (c : Ftdc.Dynamic)
   | streaming (c : Streaming) | streamingDynamic (c : StreamingDynamic)
 
-def Coll.new? (ctor : String) (n : Nat) (script : List WriteResult := []) : Option Coll :=
+def Coll.new? (ctor0 : String) (n : Nat) (script : List WriteResult := []) : Option Coll :=
+  -- `sample0-<ctor>`: the time-sampling wrapper with a zero interval is transparent
+  let ctor := if ctor0.startsWith "sample0-" then (ctor0.drop 8).toString else ctor0
   match ctor with
   | "base" => some (.base { maxDeltas := n })
   | "batch" => some (.batch (Batch.new n))
